@@ -39,38 +39,41 @@ Record state : Type := mkState
     secrets : list addr;                 (* addresses with a registered recovery secret *)
     rotated : list addr;                 (* rotation history: sources *)
     bal : acct -> string -> Z;
-    del_fix : bool }.                   (* does DeleteIdentityRecordById also delete the address+key index entry? (probed on the real code) *)
+    del_fix : bool;                   (* does DeleteIdentityRecordById also delete the address+key index entry? (probed on the real code) *)
+    msg_guard : bool }.                 (* does MsgSetNetworkProperties apply the EnsureUniqueKeys guards? (probed on the real code) *)
 
-Definition set_recs (s : state) x := mkState x (idx s) (reqs s) (last_rid s) (last_qid s) (ukeys s) (min_tip s) (councilors s) (perm_c s) (perm_v s) (perm_n s) (accts s) (secrets s) (rotated s) (bal s) (del_fix s).
-Definition set_idx (s : state) x := mkState (recs s) x (reqs s) (last_rid s) (last_qid s) (ukeys s) (min_tip s) (councilors s) (perm_c s) (perm_v s) (perm_n s) (accts s) (secrets s) (rotated s) (bal s) (del_fix s).
-Definition set_reqs (s : state) x := mkState (recs s) (idx s) x (last_rid s) (last_qid s) (ukeys s) (min_tip s) (councilors s) (perm_c s) (perm_v s) (perm_n s) (accts s) (secrets s) (rotated s) (bal s) (del_fix s).
-Definition set_last_rid (s : state) x := mkState (recs s) (idx s) (reqs s) x (last_qid s) (ukeys s) (min_tip s) (councilors s) (perm_c s) (perm_v s) (perm_n s) (accts s) (secrets s) (rotated s) (bal s) (del_fix s).
-Definition set_last_qid (s : state) x := mkState (recs s) (idx s) (reqs s) (last_rid s) x (ukeys s) (min_tip s) (councilors s) (perm_c s) (perm_v s) (perm_n s) (accts s) (secrets s) (rotated s) (bal s) (del_fix s).
-Definition set_ukeys (s : state) x := mkState (recs s) (idx s) (reqs s) (last_rid s) (last_qid s) x (min_tip s) (councilors s) (perm_c s) (perm_v s) (perm_n s) (accts s) (secrets s) (rotated s) (bal s) (del_fix s).
-Definition set_bal (s : state) ac x := mkState (recs s) (idx s) (reqs s) (last_rid s) (last_qid s) (ukeys s) (min_tip s) (councilors s) (perm_c s) (perm_v s) (perm_n s) ac (secrets s) (rotated s) x (del_fix s).
+Definition set_recs (s : state) x := mkState x (idx s) (reqs s) (last_rid s) (last_qid s) (ukeys s) (min_tip s) (councilors s) (perm_c s) (perm_v s) (perm_n s) (accts s) (secrets s) (rotated s) (bal s) (del_fix s) (msg_guard s).
+Definition set_idx (s : state) x := mkState (recs s) x (reqs s) (last_rid s) (last_qid s) (ukeys s) (min_tip s) (councilors s) (perm_c s) (perm_v s) (perm_n s) (accts s) (secrets s) (rotated s) (bal s) (del_fix s) (msg_guard s).
+Definition set_reqs (s : state) x := mkState (recs s) (idx s) x (last_rid s) (last_qid s) (ukeys s) (min_tip s) (councilors s) (perm_c s) (perm_v s) (perm_n s) (accts s) (secrets s) (rotated s) (bal s) (del_fix s) (msg_guard s).
+Definition set_last_rid (s : state) x := mkState (recs s) (idx s) (reqs s) x (last_qid s) (ukeys s) (min_tip s) (councilors s) (perm_c s) (perm_v s) (perm_n s) (accts s) (secrets s) (rotated s) (bal s) (del_fix s) (msg_guard s).
+Definition set_last_qid (s : state) x := mkState (recs s) (idx s) (reqs s) (last_rid s) x (ukeys s) (min_tip s) (councilors s) (perm_c s) (perm_v s) (perm_n s) (accts s) (secrets s) (rotated s) (bal s) (del_fix s) (msg_guard s).
+Definition set_ukeys (s : state) x := mkState (recs s) (idx s) (reqs s) (last_rid s) (last_qid s) x (min_tip s) (councilors s) (perm_c s) (perm_v s) (perm_n s) (accts s) (secrets s) (rotated s) (bal s) (del_fix s) (msg_guard s).
+Definition set_bal (s : state) ac x := mkState (recs s) (idx s) (reqs s) (last_rid s) (last_qid s) (ukeys s) (min_tip s) (councilors s) (perm_c s) (perm_v s) (perm_n s) ac (secrets s) (rotated s) x (del_fix s) (msg_guard s).
 (* everything that is neither record, index, request, counter, unique-key list nor balance *)
-Definition set_aux (s : state) co pc pv pn ac ro := mkState (recs s) (idx s) (reqs s) (last_rid s) (last_qid s) (ukeys s) (min_tip s) co pc pv pn ac (secrets s) ro (bal s) (del_fix s).
+Definition set_aux (s : state) co pc pv pn ac ro := mkState (recs s) (idx s) (reqs s) (last_rid s) (last_qid s) (ukeys s) (min_tip s) co pc pv pn ac (secrets s) ro (bal s) (del_fix s) (msg_guard s).
 
 Fixpoint mem (a : Z) (l : list Z) : bool := match l with [] => false | b :: r => (a =? b) || mem a r end.
 Definition add_mem (a : Z) (l : list Z) : list Z := if mem a l then l else l ++ [a].
 
 (* ---------------------------------------------------------------- stores *)
-Fixpoint put_rec (r : record) (l : list record) : list record :=
+(* Set on the record store: replace the record with this id, or insert in id order *)
+Fixpoint insert_rec (r : record) (l : list record) : list record :=
   match l with
   | [] => [r]
-  | x :: t => if r_id x =? r_id r then r :: t
-              else if r_id r <? r_id x then r :: x :: t
-              else x :: put_rec r t
+  | x :: t => if r_id r <? r_id x then r :: x :: t else x :: insert_rec r t
   end.
+Definition put_rec (r : record) (l : list record) : list record :=
+  if existsb (fun x => r_id x =? r_id r) l
+  then map (fun x => if r_id x =? r_id r then r else x) l
+  else insert_rec r l.
 Definition get_rec (s : state) (id : Z) : option record := find (fun r => r_id r =? id) (recs s).
 Definition del_rec (s : state) (id : Z) : state := set_recs s (filter (fun r => negb (r_id r =? id)) (recs s)).
 
 Definition ik_eqb (x y : addr * string) : bool := (fst x =? fst y) && String.eqb (snd x) (snd y).
-Fixpoint put_idx (k : addr * string) (id : Z) (l : list ((addr * string) * Z)) : list ((addr * string) * Z) :=
-  match l with
-  | [] => [(k, id)]
-  | e :: t => if ik_eqb (fst e) k then (k, id) :: t else e :: put_idx k id t
-  end.
+Definition put_idx (k : addr * string) (id : Z) (l : list ((addr * string) * Z)) : list ((addr * string) * Z) :=
+  if existsb (fun e => ik_eqb (fst e) k) l
+  then map (fun e => if ik_eqb (fst e) k then (k, id) else e) l
+  else l ++ [(k, id)].
 Definition get_idx (s : state) (k : addr * string) : Z :=
   match find (fun e => ik_eqb (fst e) k) (idx s) with Some e => snd e | None => 0 end.
 Definition del_idx (s : state) (k : addr * string) : state := set_idx s (filter (fun e => negb (ik_eqb (fst e) k)) (idx s)).
@@ -276,9 +279,11 @@ Definition set_keys_prop (new : string) (s : state) : outcome state :=
   if negb (String.eqb (ensure_old_unique_keys_not_removed (ukeys s) new) "") then Err "old unique key removed" else
   if negb (String.eqb (ensure_unique_keys (kv_of s) (ukeys s) new) "") then Err "already existing key is not unique" else
   if ukeys_valid new then Ok (set_ukeys s new) else Err "invalid network properties".
-(* MsgSetNetworkProperties: whole-record write by a holder of the change permission; no guard *)
+(* MsgSetNetworkProperties: whole-record write by a holder of the change permission; guarded only if [msg_guard] *)
 Definition set_keys_msg (p : addr) (new : string) (s : state) : outcome state :=
   if negb (mem p (perm_n s)) then Err "PermChangeTxFee" else
+  if msg_guard s && negb (String.eqb (ensure_old_unique_keys_not_removed (ukeys s) new) "") then Err "old unique key removed" else
+  if msg_guard s && negb (String.eqb (ensure_unique_keys (kv_of s) (ukeys s) new) "") then Err "already existing key is not unique" else
   if ukeys_valid new then Ok (set_ukeys s new) else Err "invalid network properties".
 
 (* ---------------------------------------------------------------- RotateRecoveryAddress *)
@@ -353,5 +358,5 @@ Definition signer (o : op) : addr :=
 
 (* starting states: empty registry, given configuration and balances.  Granting the
    claim-councilor permission (AddWhitelistPermission) already creates a "waiting" councilor. *)
-Definition init_state (uk : string) (mt : Z) (pc pv pn ac se : list addr) (b : acct -> string -> Z) (fx : bool) : state :=
-  mkState [] [] [] 0 0 uk mt pc pc pv pn ac se [] b fx.
+Definition init_state (uk : string) (mt : Z) (pc pv pn ac se : list addr) (b : acct -> string -> Z) (fx mg : bool) : state :=
+  mkState [] [] [] 0 0 uk mt pc pc pv pn ac se [] b fx mg.
